@@ -827,7 +827,8 @@ def trim_rules(ck, mod, fn):
     dens = CS('%s.toarray()' % counts, '%s.todense()' % counts, 'np.asarray(%s.todense())' % counts, '%s.A' % counts)
     redefs = [s for s in assigns_to(fn, counts)]
     okd = all(isinstance(s, ast.Assign) and len(s.targets) == 1 and isinstance(s.targets[0], ast.Name) and
-              _cx(s.value) in dens for s in redefs)
+              (_cx(s.value) in dens or _densify_ifexp(s.value, counts, dens) is not None) for s in redefs)
+    densify_rule(ck, mod, fn, fi, counts, dens, redefs, cst)
     graph = c.args[0] if c.args else kwarg(c, 'csgraph')
     for _ in range(4):          # `g2 = g` : follow plain aliases to the array that is built and thresholded
         if isinstance(graph, ast.Name) and len(fi.defs_of_use(graph)) == 1:
@@ -1160,6 +1161,91 @@ def _block_weights(W, counts, L, nsub, G):
             'block': 'only the counts between states of the component (counts leaving it are ignored)',
             'all': 'the whole matrix for every component'}[kind]
     return kind, base, what
+
+
+def _sparse_atom(e, pol, X):
+    """Does the atomic condition `e` (holding with polarity pol) say that the
+    variable X is a scipy sparse matrix?  True: X is sparse; False: X is not
+    sparse (an ndarray); None: the condition says nothing the rule knows."""
+    e = _strip_calls(e, ('bool',))
+    if isinstance(e, ast.Call) and not e.keywords and not any(isinstance(a, ast.Starred) for a in e.args):
+        last = (call_name(e) or '').split('.')[-1]
+        if last in ('issparse', 'isspmatrix') and len(e.args) == 1 and isinstance(e.args[0], ast.Name) and e.args[0].id == X:
+            return pol
+        if last == 'hasattr' and len(e.args) == 2 and isinstance(e.args[0], ast.Name) and e.args[0].id == X and \
+                const_value(e.args[1]) in ('toarray', 'todense'):
+            return pol
+        if last == 'isinstance' and len(e.args) == 2 and isinstance(e.args[0], ast.Name) and e.args[0].id == X and \
+                u(e.args[1]) in ('np.ndarray', 'numpy.ndarray'):
+            return not pol
+    return None
+
+
+def _densify_ifexp(v, X, dens):
+    """`X.toarray() if <X is sparse> else X` (or the mirrored form): True when
+    the densification is taken for sparse X, False when it is taken for dense
+    X; None if v is not such a conditional expression."""
+    if not isinstance(v, ast.IfExp):
+        return None
+    cj = conjuncts(v.test, True)
+    if cj is None or len(cj) != 1 or isinstance(cj[0], Cmp):
+        return None
+    sp = _sparse_atom(cj[0][1], cj[0][2], X)
+    if sp is None:
+        return None
+    if _cx(v.body) in dens and isinstance(v.orelse, ast.Name) and v.orelse.id == X:
+        return sp
+    if _cx(v.orelse) in dens and isinstance(v.body, ast.Name) and v.body.id == X:
+        return not sp
+    return None
+
+
+def densify_rule(ck, mod, fn, fi, counts, dens, redefs, cst):
+    """A sparse argument is densified - and only a sparse one: `X.toarray()`
+    exists on sparse matrices only, and everything that follows (np.array(X,
+    copy=True), X < threshold, X.sum(axis=1), fancy indexing) needs an
+    ndarray.  Necessary condition: every densification of the argument is
+    executed exactly under "X is sparse"."""
+    rule = 'C11.D4.densify'
+    bad = ('the argument must be densified exactly when it is sparse: under the negated test a dense array is asked for '
+           '.toarray() (AttributeError) and a sparse matrix reaches the thresholding / row sums / np.ix_ extraction undensified')
+    okmsg = 'a sparse argument (and only a sparse one) is densified before the thresholding'
+    ds = [s for s in redefs if isinstance(s, ast.Assign) and len(s.targets) == 1 and isinstance(s.targets[0], ast.Name)]
+    ds = [s for s in ds if _cx(s.value) in dens or isinstance(s.value, ast.IfExp)]
+    if not ds:
+        ck.missing(rule, 'densification of a sparse argument (`%s = %s.toarray()` under issparse(%s))' % (counts, counts, counts))
+        return
+    for s in ds:
+        if not (s is cst or fi.cfg.reachable(s, cst)):
+            ck.missing(rule, 'densification %s does not precede the component search' % _short(s))
+            continue
+        verdicts, unknown = [], []
+        if isinstance(s.value, ast.IfExp):
+            sp = _densify_ifexp(s.value, counts, dens)
+            if sp is None:
+                unknown.append(u(s.value.test))
+            else:
+                verdicts.append(sp)
+        for n in fi.cfg.nodes:
+            if not (isinstance(n, Assume) and fi.cfg.dominates(n, s)):
+                continue
+            cj = conjuncts(n.test, n.polarity)
+            if cj is None:
+                unknown.append(u(n.test))
+                continue
+            for a in cj:
+                sp = None if isinstance(a, Cmp) else _sparse_atom(a[1], a[2], counts)
+                if sp is None:
+                    unknown.append(repr(a) if isinstance(a, Cmp) else u(a[1]))
+                else:
+                    verdicts.append(sp)
+        if False in verdicts:
+            ck.bad(rule, mod, s, F, 'densification: %s  [executed when %s is NOT sparse]' % (u(s), counts), bad)
+        elif verdicts and not unknown:
+            ck.ok(rule, mod, s, 'densification: %s  [executed when %s is sparse]' % (u(s), counts), okmsg)
+        else:
+            ck.missing(rule, 'condition under which %s executes%s' % (
+                _short(s), ': ' + _short('; '.join(unknown), 100) if unknown else ' (unconditional)'))
 
 
 def container_rule(ck, mod, fn, fi, counts, M, rets):
@@ -1654,6 +1740,34 @@ def fit_rules(ck):
             ck.missing(rule, 'condition under which the identity mapping is stored: %s' % what)
 
 
+def _pairs_stored_rule(ck, mod, init, ifi, tp, stores):
+    """The pairs handed to TrimMapping are STORED: every producer
+    (trim_disconnected, MSM.fit, read) hands over a non-empty iterable of
+    pairs - a zip object, which is always true - so the store(s) that build
+    to_original must execute whenever the argument is given/true.  A store
+    guarded by the NEGATED test runs only for an absent/empty argument: the
+    mapping returned by trim_disconnected then has no to_original at all."""
+    rule = 'C11.D3.mapping-stored'
+    if tp is None:
+        return
+    given = {(tp, True), (C('%s is not None' % tp), True)}
+    absent = {(tp, False), (C('%s is None' % tp), True)}
+    for s in stores:
+        atoms = _guard_atoms(ifi, s)
+        what = 'condition of `%s`: %s' % (_short(s, 80), _cond_text(atoms) if atoms is not None else '?')
+        if atoms is None:
+            ck.missing(rule, 'condition under which TrimMapping.__init__ stores the pairs (%s)' % _short(s, 80))
+        elif set(atoms) & absent:
+            ck.bad(rule, mod, s, 'TrimMapping.__init__', what,
+                   'the pairs given to TrimMapping must be stored in to_original whenever they are given: this store runs only '
+                   'when the argument is absent/empty, so TrimMapping(zip(keep_states, ...)) - as built by trim_disconnected - '
+                   'keeps no mapping at all')
+        elif set(atoms) <= given:
+            ck.ok(rule, mod, s, what, 'the pairs are stored whenever they are given')
+        else:
+            ck.missing(rule, 'relation of the %s to the presence of the pairs' % what)
+
+
 def mapping_rules(ck):
     """TrimMapping orientation: __init__, read, write, to_mapped."""
     rule = 'C11.D3.mapping-orientation'
@@ -1663,6 +1777,7 @@ def mapping_rules(ck):
     tp = params(init)[1] if len(params(init)) > 1 else None
     st = [s for s in walk_local(init) if isinstance(s, ast.Assign) and u(s.targets[0]) == 'self.to_original']
     bad_init = 'TrimMapping(transformations) takes (original, trimmed) pairs and must store to_original = {trimmed: original}'
+    ifi = finfo(mod, init)
     if len(st) != 1:
         ck.missing(rule, 'single store of self.to_original in TrimMapping.__init__ (found %d)' % len(st))
     elif _is_empty_dict(st[0].value):
@@ -1674,8 +1789,8 @@ def mapping_rules(ck):
             ck.check(fills[0][0], rule, mod, fills[0][2], 'TrimMapping.__init__', u(fills[0][2]),
                      'to_original[trimmed] = original for (original, trimmed) pairs',
                      bad_init + ': dict(pairs) / {o: t} is keyed by the ORIGINAL ids')
+            _pairs_stored_rule(ck, mod, init, ifi, tp, [st[0], fills[0][2]])
     else:
-        ifi = finfo(mod, init)
         inv, it = _inverting(ifi.expand(st[0].value))
         if inv is None or u(_strip_calls(it, ('list', 'tuple', 'iter'))) != tp:
             ck.missing(rule, 'construction of to_original from the pairs not recognised: %s' % _short(st[0]))
@@ -1683,6 +1798,7 @@ def mapping_rules(ck):
             ck.check(inv, rule, mod, st[0], 'TrimMapping.__init__', u(st[0]),
                      'to_original[trimmed] = original for (original, trimmed) pairs',
                      bad_init + ': dict(pairs) / {o: t} is keyed by the ORIGINAL ids')
+            _pairs_stored_rule(ck, mod, init, ifi, tp, [st[0]])
     cls = mod.classes['TrimMapping']
     getters = [f for f in cls.body if isinstance(f, ast.FunctionDef) and f.name == 'to_mapped'
                and any(u(d) == 'property' for d in f.decorator_list)]
@@ -1767,3 +1883,89 @@ def mapping_rules(ck):
         ck.decide(v, rule + '.read', mod, r[0], 'TrimMapping.read', u(r[0]),
                   'reader rebuilds (original, mapped) pairs from the named columns',
                   "read must check the header and build TrimMapping(zip(column['original'], column['mapped']))")
+        # polarity of the header check: the return must be reached when the header row EQUALS the names
+        for cmp_ in chk:
+            pol = _header_check_polarity(rfi, cmp_, r[0], is_header)
+            if pol is False:
+                ck.bad(rule + '.read', mod, rfi.stmt(cmp_), 'TrimMapping.read', 'header check: %s' % _short(rfi.stmt(cmp_), 100),
+                       "the reader must accept exactly the header ['original', 'mapped'] that write produces: this check lets "
+                       'the reader continue only when the header DIFFERS from it (every file written by TrimMapping.write is refused)')
+        # the columns are keyed by the HEADER names and filled with the row values
+        if v[0] == 'match' and isinstance(v[1].get('_C'), ast.Name):
+            _column_fill_rule(ck, rule + '.read', mod, rd, rfi, v[1]['_C'].id)
+
+
+def _header_check_polarity(fi, cmp_, ret, is_header):
+    """Is the return reached when the comparison of the header row with the
+    literal names says EQUAL (True) or only when it says DIFFERENT (False)?
+    None: the role of the comparison is not recognised."""
+    s = fi.stmt(cmp_)
+
+    def eq_under(test, pol):
+        cj = conjuncts(test, pol)
+        if cj is None:
+            return None
+        for a in cj:
+            if isinstance(a, Cmp) and (is_header(a.lhs) or is_header(a.rhs)) and a.op in (ast.Eq, ast.NotEq):
+                return a.op is ast.Eq
+        return None
+    if isinstance(s, ast.Assert):
+        if not any(n is cmp_ for n in ast.walk(s.test)):
+            return None
+        return eq_under(s.test, True)
+    if isinstance(s, ast.If) and any(n is cmp_ for n in ast.walk(s.test)):
+        sides = {}
+        for n in fi.cfg.nodes:
+            if isinstance(n, Assume) and n.owner is s:
+                e = eq_under(n.test, n.polarity)
+                if e is not None:
+                    sides[e] = n
+        if True in sides and False in sides:
+            reach_eq = fi.cfg.reachable(sides[True], ret)
+            reach_ne = fi.cfg.reachable(sides[False], ret)
+            if reach_eq:
+                return True
+            if reach_ne:
+                return False
+    return None
+
+
+def _column_fill_rule(ck, rule, mod, rd, fi, Cn):
+    """`for A, B in zip(X, Y): Cn[A].append(..B..)` where Cn was created with
+    one (empty) column per element of the header row H: the key must be the
+    component paired with H, the value the one paired with the data row."""
+    cdefs = [s for s in assigns_to(rd, Cn) if isinstance(s, ast.Assign)]
+    if len(cdefs) != 1 or not isinstance(cdefs[0].value, ast.DictComp) or len(cdefs[0].value.generators) != 1:
+        return
+    dc = cdefs[0].value
+    g = dc.generators[0]
+    if g.ifs or not (isinstance(g.target, ast.Name) and isinstance(dc.key, ast.Name) and dc.key.id == g.target.id):
+        return
+    H = _cx(g.iter)
+    par = fi.mod.parent
+    for x in walk_local(rd):
+        if not (isinstance(x, ast.Call) and isinstance(x.func, ast.Attribute) and x.func.attr == 'append' and len(x.args) == 1
+                and isinstance(x.func.value, ast.Subscript) and isinstance(x.func.value.value, ast.Name)
+                and x.func.value.value.id == Cn and isinstance(x.func.value.slice, ast.Name)):
+            continue
+        key = x.func.value.slice.id
+        lp = par.get(fi.stmt(x))
+        if not (isinstance(lp, ast.For) and isinstance(lp.target, ast.Tuple) and len(lp.target.elts) == 2
+                and all(isinstance(e, ast.Name) for e in lp.target.elts)
+                and isinstance(lp.iter, ast.Call) and call_name(lp.iter) == 'zip' and len(lp.iter.args) == 2 and not lp.iter.keywords):
+            continue
+        a, b = (e.id for e in lp.target.elts)
+        if a == b or key not in (a, b):
+            continue
+        p, q = (_cx(z) for z in lp.iter.args)
+        with_key, other = (p, q) if key == a else (q, p)
+        vals = {n.id for n in ast.walk(x.args[0]) if isinstance(n, ast.Name)}
+        if (b if key == a else a) not in vals:
+            continue
+        what = '%s: %s' % (_short(u(lp).split('\n')[0], 80), u(x))
+        if with_key == H and other != H:
+            ck.ok(rule, mod, x, what, 'columns are keyed by the header names and filled with the row values')
+        elif other == H and with_key != H:
+            ck.bad(rule, mod, x, 'TrimMapping.read', what,
+                   'the columns were created per header name (%s): the key of the column must be the component zipped with the '
+                   'header row, the appended value the one zipped with the data row - here the row VALUE is used as the column name' % H)
